@@ -6,6 +6,7 @@ open DawgieVerif
 def dispatch (x : Sx) : Sx :=
   match x with
   | Sx.list (Sx.atom "frame" :: rest) => Frame.handle rest
+  | Sx.list (Sx.atom "hs" :: rest) => Handshake.handle (Sx.atom "hs" :: rest)
   | _ => Sx.err "model"
 
 partial def loop (h : IO.FS.Stream) (out : IO.FS.Stream) : IO Unit := do
